@@ -51,7 +51,11 @@ func (m MemoryCache) Get(height int64, key []byte) ([]byte, error) {
 	if m.isHeightSafeToRead(height) {
 		for i := range m.pastHeights {
 			if m.pastHeights[i].height == height {
-				return []byte(m.pastHeights[i].data[string(key)]), nil
+				// a key that is absent at this height reads as nil, exactly as the tree does
+				if value, ok := m.pastHeights[i].data[string(key)]; ok {
+					return []byte(value), nil
+				}
+				return nil, nil
 			}
 		}
 	}
@@ -75,6 +79,10 @@ func (m MemoryCache) Iterator(height int64, start, end []byte) (types.Iterator, 
 	if m.isHeightSafeToRead(height) {
 		for _, v := range m.pastHeights {
 			if v.height == height {
+				if end != nil && len(end) == 0 {
+					// the tree admits no key below an empty, non-nil end bound
+					return &MemoryHeightIterator{endIdx: -1, startIdx: 1}, nil
+				}
 				return NewMemoryHeightIterator(v.data, string(start), string(end), v.orderedKeys, true), nil
 			}
 		}
@@ -86,6 +94,10 @@ func (m MemoryCache) ReverseIterator(height int64, start, end []byte) (types.Ite
 	if m.isHeightSafeToRead(height) {
 		for _, v := range m.pastHeights {
 			if v.height == height {
+				if end != nil && len(end) == 0 {
+					// the tree admits no key below an empty, non-nil end bound
+					return &MemoryHeightIterator{endIdx: -1, startIdx: 1}, nil
+				}
 				return NewMemoryHeightIterator(v.data, string(start), string(end), v.orderedKeys, false), nil
 			}
 		}
@@ -108,7 +120,7 @@ func (m MemoryCache) Commit(height int64) {
 	m.pastHeights[lowestIdx].height = m.current.height
 	m.pastHeights[lowestIdx].data = map[string]string{}
 
-	orderedKeys := make([]string, len(m.current.data))
+	orderedKeys := make([]string, 0, len(m.current.data))
 	for k, v := range m.current.data {
 		m.pastHeights[lowestIdx].data[k] = v
 		orderedKeys = append(orderedKeys, k)
